@@ -64,10 +64,10 @@ pub(crate) fn strings_parser(
         let mut string = String::new();
 
         reader.seek(SeekFrom::Start(string_offset))?;
-        let mut next_char = reader.read_le::<u8>().unwrap() as char;
+        let mut next_char = reader.read_le::<u8>()? as char;
         while next_char != '\0' {
             string.push(next_char);
-            next_char = reader.read_le::<u8>().unwrap() as char;
+            next_char = reader.read_le::<u8>()? as char;
         }
 
         strings.push(string);
